@@ -78,6 +78,11 @@ func main() {
 		sort.Strings(ids)
 	}
 	w, err := LoadWorld(*repo, ov, *arch)
+	if err == nil {
+		for _, n := range w.Notes {
+			fmt.Println("NOTE " + n)
+		}
+	}
 	exit := 0
 	for _, id := range ids {
 		f, ok := props[id]
@@ -98,6 +103,9 @@ func main() {
 					}
 				}()
 				r.Extra["packages_analysed"] = len(w.Repo)
+				if len(w.Notes) > 0 {
+					r.Extra["normalisations"] = w.Notes
+				}
 				r.Extra["goarch"] = archName(w)
 				f(w, r)
 			}()
